@@ -83,6 +83,9 @@ Failing ==
   IF Faults /\ C_Outcome
     THEN (* the failed step consumed its event: it is not put back, and what the handlers had posted stays posted *)
          (IF C_Q THEN {} ELSE {"Q"}) \cup (IF C_DQ THEN {} ELSE {"DQ"}) \cup (IF C_Did THEN {} ELSE {"Did"})
+  ELSE IF E.k = "child_state" /\ Raises /\ C_Outcome
+    THEN (* a query that fails still changes nothing *)
+         (IF C_Cur THEN {} ELSE {"Cur"}) \cup (IF C_Calls THEN {} ELSE {"Calls"})
   ELSE IF Raises \/ E.outcome # "ok" THEN (IF C_Outcome THEN {} ELSE {"Outcome"})
   ELSE    (IF C_Outcome THEN {} ELSE {"Outcome"}) \cup (IF C_Calls THEN {} ELSE {"Calls"})
      \cup (IF C_Marks THEN {} ELSE {"Marks"}) \cup (IF C_Cur THEN {} ELSE {"Cur"})
